@@ -209,6 +209,10 @@ def case_pvw(ctx, inp):
 
 CASES = {"sdl": case_sdl, "from_pandas": case_from_pandas, "from_pandas_joint": case_from_pandas_joint, "quantiles": case_quantiles, "pvw": case_pvw}
 
+# extension round: the quantile divisions have a Lean model (Model/PartQuant.lean); sections pq_* in _c45_quantiles.py
+from props import _c45_quantiles as _pq   # noqa: E402
+CASES.update(_pq.CASES)
+
 
 def _sorted_seqs(maxlen, letters):
     for ln in range(1, maxlen + 1):
@@ -268,3 +272,4 @@ def generate(ctx):
         vals = [rng.randint(0, rng.choice([2, 5, 20, 100])) for _ in range(ln)]
         yield "quantiles", {"vals": vals, "kind": rng.choice(["int", "float", "str"]), "nin": rng.randint(1, min(ln, 6)),
                             "nout": rng.randint(1, 8), "upsample": rng.choice([1.0, 1.0, 0.3, 4.0])}
+    yield from _pq.generate(ctx)
